@@ -3,6 +3,8 @@ package props
 import (
 	"context"
 	"fmt"
+	"io"
+	"log/slog"
 	"os"
 	"regexp"
 	"sort"
@@ -13,6 +15,7 @@ import (
 	"github.com/indexsupply/shovel/jrpc2"
 	"github.com/indexsupply/shovel/shovel"
 	"github.com/indexsupply/shovel/shovel/config"
+	"github.com/indexsupply/shovel/wslog"
 	"github.com/jackc/pgx/v5/pgxpool"
 
 	"verifharness/core"
@@ -90,9 +93,76 @@ func raceClass(sig, rep string) string {
 	return ""
 }
 
+// (E) the shape the program itself runs: ONE declaration listed on TWO sources, tasks built by the
+// real loadTasks inside the real Manager (one decoder per task is loadTasks' job), source concurrency 2,
+// both chains carrying Transfer logs whose data is decoded, verbose logging on
+func twoSourceManager(ctx context.Context, rr *core.Rand, s int) string {
+	pg := fakepg.New()
+	url, _ := pg.Start()
+	cfgp, _ := pgxpool.ParseConfig(url)
+	cfgp.MaxConns = 12
+	pool, err := pgxpool.NewWithConfig(ctx, cfgp)
+	if err != nil {
+		return "setup: " + err.Error()
+	}
+	n1 := simnode.NewNode(transferChain(30, uint64(300+s)))
+	n2 := simnode.NewNode(transferChain(30, uint64(700+s)))
+	defer func() {
+		n1.Close()
+		n2.Close()
+		go pool.Close()
+		pg.Close()
+	}()
+	ig := transferIG("igtwo", "ttwo", []string{"block_time"}, nil)
+	ig.Sources = []config.Source{{Name: "sa", Start: 1}, {Name: "sb", Start: 1}}
+	conf := config.Root{
+		Sources: []config.Source{
+			{Name: "sa", ChainID: 1, URLs: []string{n1.URL()}, PollDuration: 3 * time.Millisecond, BatchSize: 4, Concurrency: 2},
+			{Name: "sb", ChainID: 2, URLs: []string{n2.URL()}, PollDuration: 3 * time.Millisecond, BatchSize: 4, Concurrency: 2}},
+		Integrations: []config.Integration{ig},
+	}
+	if err := config.ValidateFix(&conf); err != nil {
+		return "setup: " + err.Error()
+	}
+	conn, _ := pool.Acquire(ctx)
+	if err := config.Migrate(ctx, conn, conf); err != nil {
+		conn.Release()
+		return "setup: " + err.Error()
+	}
+	conn.Release()
+	mgr := shovel.NewManager(ctx, pool, conf)
+	go func() {
+		for {
+			mgr.Updates()
+		}
+	}()
+	ec := make(chan error)
+	go mgr.Run(ec)
+	if err := <-ec; err != nil {
+		return "first run: " + err.Error()
+	}
+	deadline := time.Now().Add(3 * time.Second)
+	for time.Now().Before(deadline) {
+		done := 0
+		for _, row := range pg.Rows("shovel.task_updates") {
+			if fmt.Sprint(row["num"]) == "29" {
+				done++
+			}
+		}
+		if done >= 2 {
+			break
+		}
+		time.Sleep(10 * time.Millisecond)
+	}
+	return fmt.Sprintf("rows=%d", len(pg.Rows("ttwo")))
+}
+
 func runC18(e *core.Env) error {
 	r := e.Rand
 	ctx := context.Background()
+	// verbose logging, as with `shovel -v`: the log calls format their attributes (Filter.String() and the like)
+	slog.SetDefault(slog.New(wslog.New(io.Discard, &slog.HandlerOptions{Level: slog.LevelDebug})))
+	defer slog.SetDefault(slog.New(slog.NewTextHandler(io.Discard, &slog.HandlerOptions{Level: slog.LevelError})))
 	logPath := os.Getenv("VERIF_RACE_LOG")
 	concurrentSteps := 0
 	for s := 0; s < e.N(6, 60) && !e.OverBudget(); s++ {
@@ -174,6 +244,11 @@ func runC18(e *core.Env) error {
 		wg.Wait()
 		concurrentSteps += 12 * len(tasks)
 		w.close()
+	}
+	// (E) one declaration on two sources through the real Manager / loadTasks
+	for s := 0; s < e.N(2, 10); s++ {
+		out := twoSourceManager(ctx, r.Fork(), s)
+		e.Add(core.Case{Impl: out, Spec: out, Key: fmt.Sprintf("c18-two-sources %d", s), Nontrivial: true, Tags: []string{"scenarios", "one-declaration-two-sources-through-loadTasks"}})
 	}
 	// (D) the manager with restarts
 	for s := 0; s < e.N(3, 20); s++ {
